@@ -118,7 +118,7 @@ func c04Alphabet() []Req {
 func TestC04(t *testing.T) {
 	r := NewReporter(t)
 	defer r.Done()
-	r.Rule("(a) all request sequences of length <= depth over a hostile alphabet (unaligned / huge offsets and limits, sector reads with huge start/count, listing and mutation on virtual paths and non-directories, unknown opcodes) and all sequences of length 3-4 over 12 state-carrying requests, against a world with generated images, redump + key, 3k3y, CD image; (b) on-disk content: every PARAM.SFO header/index field set to each boundary value, every truncation, TITLE_ID lengths 0..40; region tables with hostile counts and borders; key files of every length 0..40 and non-hex; 3k3y area x file lengths; (c) name families, directories with unresolvable links (loop, mutual, through a file, dangling), a cycle through the parent and names that are not valid UTF-8; each followed by a liveness probe; (e) Accept failing with EMFILE/ENFILE, bounded descriptor use for a 300-file image, bounded memory for a 768 MiB ordinary read (and 2^31-1 bytes against the real binary with 3 GB of address space), the real binary with 64 descriptors under 100 simultaneous clients and under a client walking through a 200-file image; (d) the same artefacts through make-iso / decrypt; oracle: worker process alive, fresh connection served, no hang, tools exit without a Go panic; distinct by case")
+	r.Rule("(a) all request sequences of length <= depth over a hostile alphabet (unaligned / huge offsets and limits, sector reads with huge start/count, listing and mutation on virtual paths and non-directories, unknown opcodes) and all sequences of length 3-4 over 12 state-carrying requests, against a world with generated images, redump + key, 3k3y, CD image; (b) on-disk content: every PARAM.SFO header/index field set to each boundary value, every truncation, TITLE_ID lengths 0..40; region tables with hostile counts and borders; key files of every length 0..40 and non-hex; 3k3y area x file lengths; (c) name families, directories with unresolvable links (loop, mutual, through a file, dangling), a cycle through the parent and names that are not valid UTF-8; each followed by a liveness probe; (e) Accept failing with EMFILE/ENFILE, bounded descriptor use for a 300-file image, bounded memory for a 768 MiB ordinary read (and 2^31-1 bytes against the real binary with 3 GB of address space), the real binary with 64 descriptors under 100 simultaneous clients and under a client walking through a 200-file image; (d) the same artefacts through make-iso / decrypt; oracle: worker process alive, fresh connection served, no hang, tools exit without a Go panic; distinct by case; (c') the real process started over roots with 4100 entries, a crowded subdirectory, link loops / dangling links / a FIFO / an inaccessible directory / an undecodable name, 200 nested directories, nothing at all - alive and answering two seconds after it began to listen")
 	w := c04World(t, r)
 	defer w.Cleanup()
 	alpha := c04Alphabet()
@@ -757,6 +757,92 @@ func TestC04(t *testing.T) {
 				b.Stop()
 			}
 			os.Remove(big)
+		}
+		os.RemoveAll(logDir)
+	}
+	// (c') what lies on disk when the real process starts (its start-up work walks the served tree): crowded roots and
+	// subdirectories, link loops, dangling links, special files, deep nesting, odd names - the process is still alive
+	// and answering two seconds after it began to listen
+	if binPath() != "" {
+		logDir := binLogDir("C04start")
+		must(os.MkdirAll(logDir, 0o755))
+		shapes := []struct {
+			name  string
+			build func(root string)
+		}{
+			{"root with 4100 entries", func(root string) {
+				for i := 0; i < 4100; i++ {
+					must(os.WriteFile(filepath.Join(root, sprintf("f%04d", i)), nil, 0o644))
+				}
+			}},
+			{"root with exactly 4096 and a subdirectory with 4097 entries", func(root string) {
+				must(os.Mkdir(filepath.Join(root, "GAMES"), 0o755))
+				for i := 0; i < 4095; i++ {
+					must(os.WriteFile(filepath.Join(root, sprintf("f%04d", i)), nil, 0o644))
+				}
+				for i := 0; i < 4097; i++ {
+					must(os.WriteFile(filepath.Join(root, "GAMES", sprintf("g%04d", i)), nil, 0o644))
+				}
+			}},
+			{"link loops, dangling links, a FIFO, a socket-like name, a directory without permissions", func(root string) {
+				must(os.MkdirAll(filepath.Join(root, "a", "b"), 0o755))
+				must(os.Symlink("..", filepath.Join(root, "a", "b", "up")))
+				must(os.Symlink(root, filepath.Join(root, "a", "rootlink")))
+				must(os.Symlink("self", filepath.Join(root, "self")))
+				must(os.Symlink("/nonexistent/target", filepath.Join(root, "dangling")))
+				must(syscall.Mkfifo(filepath.Join(root, "fifo"), 0o644))
+				must(os.Mkdir(filepath.Join(root, "closed"), 0o000))
+				must(os.WriteFile(filepath.Join(root, "\xff\xfe name\n"), nil, 0o644))
+			}},
+			{"200 nested directories", func(root string) {
+				p := root
+				for i := 0; i < 200; i++ {
+					p = filepath.Join(p, "d")
+				}
+				must(os.MkdirAll(p, 0o755))
+			}},
+			{"empty root", func(root string) {}},
+		}
+		for si, sh := range shapes {
+			idx++
+			if !r.Mine(idx) {
+				continue
+			}
+			root := filepath.Join(w.Dir, sprintf("startroot%d", si))
+			os.RemoveAll(root)
+			must(os.MkdirAll(root, 0o755))
+			sh.build(root)
+			for _, extra := range [][]string{nil, {"--debug"}, {"--allow-write"}} {
+				args := append([]string{"server", "--listen-addr=127.0.0.1:0", "--root=" + root}, extra...)
+				b, err := startBin(args, cleanEnv(logDir), w.Dir, filepath.Join(logDir, "server.log"), 30*time.Second)
+				r.Trace(1)
+				key := sprintf("start-up over: %s %v", sh.name, extra)
+				r.State(key)
+				r.Nontrivial(key)
+				if err != nil {
+					r.Outcome("startup-failed")
+					r.Violation("C04:startup:did-not-start", sprintf("real server over a root with %s %v: %v | %s", sh.name, extra, err, lastLines(b.Log(), 4)), map[string]any{"shape": sh.name, "args": extra})
+					continue
+				}
+				time.Sleep(2 * time.Second)
+				alive := false
+				for try := 0; try < 3 && !alive && !b.Exited(); try++ {
+					if p, err := dialFrom(b.Addr, "", 2*time.Second); err == nil {
+						ok, ex, _ := p.statProbe("/", 5*time.Second)
+						p.Close()
+						alive = ok && ex
+					}
+				}
+				if !alive {
+					r.Outcome("startup-died")
+					r.Violation("C04:startup:died", sprintf("real server over a root with %s %v: two seconds after it began to listen it no longer serves (exited=%v): %s", sh.name, extra, b.Exited(), lastLines(b.Log(), 5)), map[string]any{"shape": sh.name, "args": extra})
+				} else {
+					r.Outcome("startup-survived")
+				}
+				b.Stop()
+			}
+			os.Chmod(filepath.Join(root, "closed"), 0o755)
+			os.RemoveAll(root)
 		}
 		os.RemoveAll(logDir)
 	}
